@@ -629,6 +629,27 @@ class Segy2dScn(Scenario):
             c.run(out, bits_per_voxel=4)
 
 
+class Segy2dB4Scn(Segy2dScn):
+    """2D route with blockshape (1, 4, N): the trace-group buffer itself is queued (no per-block copies), so a producer that
+    runs ahead of the compressor must not touch a buffer that is still in the queue"""
+    route = 'segy2d-b4'
+
+    def __init__(self, n, rnd):
+        self.n = n
+        nt = 4 * n - rnd.choice([0, 1, 2])
+        self.shape = (nt, rnd.choice([8, 13]))
+        self.data = rnd_cube(rnd, self.shape)
+        self.tag = 'x'.join(map(str, self.shape))
+        self.sgy = os.path.join(TMP, f'in2db4_{n}_{self.tag}.sgy')
+        mk_segy_2d(self.sgy, self.data)
+
+    def run(self, out, cap):
+        with SegyConverter(self.sgy) as c:
+            inline_set_bytes = self.shape[0] * self.shape[1] * 4
+            c.mem_limit = 2 * cap * inline_set_bytes + (inline_set_bytes if cap < 16 else 10 ** 12)
+            c.run(out, bits_per_voxel=4, blockshape=(1, 4, -1))
+
+
 def real_threads_bytes(scn, cap):
     """ordinary run: real queue.Queue and threading.Thread, whatever interleaving the OS chooses"""
     out = os.path.join(TMP, 'plain.sgz')
@@ -855,7 +876,7 @@ def main():
     if a.replay:
         rp = json.load(open(a.replay))
         inp = rp.get('input', {})
-    routes = {'numpy': NumpyScn, 'segy': SegyScn, 'segy2d': Segy2dScn}
+    routes = {'numpy': NumpyScn, 'segy': SegyScn, 'segy2d': Segy2dScn, 'segy2d-b4': Segy2dB4Scn}
     scns = {}
     for n in (1, 2, 3):
         for rname, cls in routes.items():
